@@ -33,13 +33,15 @@ type Plan struct {
 	ListenerChaos bool   `json:"listenerChaos"`      // listener attempts structural calls inside removal events
 	Dispatch      []Sub  `json:"dispatch,omitempty"` // Dispatch members
 	Wide          string `json:"wide,omitempty"`
-	Fat           bool   `json:"fat,omitempty"`         // 18-30 live types, creations carry most of them (entities with > 16 components)
-	HugeComp      bool   `json:"hugeComp,omitempty"`    // one component type of 4 KiB - 70 KiB
-	ManySubs      bool   `json:"manySubs,omitempty"`    // Dispatch with more than 64 members
-	ListenerRes   bool   `json:"listenerRes,omitempty"` // the listener object is also stored as a resource
-	TargetsOnly   bool   `json:"targetsOnly,omitempty"` // no operation leaves an entity with a relation and the zero target (nodes without a zero-target table)
-	FreshTwin     bool   `json:"freshTwin,omitempty"`   // C15: lock-step fresh world after each Reset
-	LoadTwin      bool   `json:"loadTwin,omitempty"`    // C17: lock-step loaded world after dump/load
+	Fat           bool   `json:"fat,omitempty"`           // 18-30 live types, creations carry most of them (entities with > 16 components)
+	HugeComp      bool   `json:"hugeComp,omitempty"`      // one component type of 4 KiB - 70 KiB
+	ManySubs      bool   `json:"manySubs,omitempty"`      // Dispatch with more than 64 members
+	ListenerRes   bool   `json:"listenerRes,omitempty"`   // the listener object is also stored as a resource
+	Lens          string `json:"lens,omitempty"`          // "C11": after a mismatch that is not an event violation the run goes on, judged only by "the world rebuilt from the delivered events equals the world"
+	NoTargetDeath bool   `json:"noTargetDeath,omitempty"` // differential for C06: removals of entities that currently are relation targets are skipped
+	TargetsOnly   bool   `json:"targetsOnly,omitempty"`   // no operation leaves an entity with a relation and the zero target (nodes without a zero-target table)
+	FreshTwin     bool   `json:"freshTwin,omitempty"`     // C15: lock-step fresh world after each Reset
+	LoadTwin      bool   `json:"loadTwin,omitempty"`      // C17: lock-step loaded world after dump/load
 	EventReplica  bool   `json:"eventReplica,omitempty"`
 }
 
